@@ -242,7 +242,11 @@ MUTANTS = [('or_last', ('Result', 'ShortCircuit'), dict(Depth=1, Wide='FALSE')),
            ('or_remembers_branch', ('HistoryFree',), dict(Depth=1, Wide='FALSE')),                          # specs carry no memory
            ('default_aliased', ('HistoryFree',), dict(Depth=1, Wide='FALSE')),            # defaults are built afresh
            ('default_not_evaluated', ('Result', 'Decides'), dict(Depth=1, Wide='FALSE')),  # defaults are argument values (T resolved)
-           ('check_validator_default_raw', ('Result', 'HistoryFree'), dict(Depth=1, Wide='FALSE'))]   # Check's default on the validator path (historic)                        # Optional / Required construction
+           ('check_validator_default_raw', ('Result', 'HistoryFree'), dict(Depth=1, Wide='FALSE')),   # Check's default on the validator path (historic)
+           # hardening: falsy values are values (defaults, sub-results), bool() decides truthiness
+           ('truthy_by_len', ('Decides',), dict(Depth=1, Wide='FALSE')),
+           ('falsy_default_missing', ('Decides', 'Defaults'), dict(Depth=1, Wide='FALSE')),
+           ('or_skips_falsy_result', ('Decides', 'Result', 'ShortCircuit'), dict(Depth=1, Wide='FALSE'))]                        # Optional / Required construction
 
 
 def main(tier, seed):
